@@ -11,12 +11,18 @@ From V Require Import Base.Util C20.Model C13.Model.
 Inductive outcome := OOk (ds : list def) | OErr (msg : str) (p : pos) | OPanic (msg : str).
 Inductive xoutcome := XOk (ds : list def) (imps : list import) | XErr (msg : str) (p : pos).
 
+Inductive cli_obs := CliDiags (per_file : list (list str)) | CliCrash.
+
 Inductive case :=
 | CExt (doc : list item) (out : xoutcome)
     (* out = resolve_operation_extensions(doc) *)
-| CImp (files : list (str * list item)) (root_path : str) (root : list item) (out : outcome).
+| CImp (files : list (str * list item)) (root_path : str) (root : list item) (out : outcome)
     (* files = the resolver's map (path, parsed document); every document passed
        resolve_operation_extensions; out = resolve_operation_imports((root_path, root), resolver) *)
+| CCli (files : list (str * list item * list str)) (obs : cli_obs).
+    (* end to end through the real `nitrogql check` binary: files = (path as the CLI keys it, parsed
+       document, names spread in that file's operations); obs = per file, the import-stage
+       messages and the "Fragment 'X' is not defined" messages the CLI printed for it *)
 
 (** * agree: model = implementation *)
 
@@ -46,6 +52,44 @@ Definition model_outcome (files : list (str * list item)) (root_path : str) (roo
   | _, _ => None
   end.
 
+(** ** what `nitrogql check` prints (crates/cli/src/check.rs::resolve_operations, then the checker's
+    undefined-fragment rule on every resolved document): every file is a root; if any import
+    resolution fails only those errors are reported; a panic kills the process *)
+Definition subset_strs (a b : list str) : bool := forallb (fun x => existsb (str_eqb x) b) a.
+Definition msg_undefined (n : str) : str := s "Fragment '" ++ n ++ s "' is not defined".
+Definition cli_predict (files : list (str * list item * list str)) : option cli_obs :=
+  match build_store (map (fun x : str * list item * list str => (fst (fst x), snd (fst x))) files) with
+  | None => None
+  | Some st =>
+      let rs := map (fun x : str * list item * list str =>
+                       let k := components (fst (fst x)) in
+                       (match lookup st k with
+                        | Some f => resolve_imports st k f
+                        | None => inl OutOfFuel
+                        end, snd x)) files in
+      if existsb (fun r => match fst r with inl PanicMissingTarget => true | _ => false end) rs
+      then Some CliCrash
+      else if existsb (fun r => match fst r with inl _ => true | _ => false end) rs
+      then
+        (* a diagnostic is attributed to the file its position lies in (the file of the offending
+           import line), whichever root the resolution started from *)
+        let errs := flat_map (fun r => match fst r with
+                                       | inl e => match err_pos e with
+                                                  | Some (Pos _ _ fi) => [(fi, err_message e)]
+                                                  | None => []
+                                                  end
+                                       | inr _ => []
+                                       end) rs in
+        Some (CliDiags (map (fun j => map snd (filter (fun x => N.eqb (fst x) (N.of_nat j)) errs))
+                            (seq 0 (length files))))
+      else Some (CliDiags (map (fun r : (ierr + list def) * list str =>
+                                  match fst r with
+                                  | inr ds => map msg_undefined
+                                                  (filter (fun n => negb (existsb (is_frag_named n) ds)) (snd r))
+                                  | inl _ => []
+                                  end) rs))
+  end.
+
 Definition agree (c : case) : bool :=
   match c with
   | CExt doc out =>
@@ -61,6 +105,13 @@ Definition agree (c : case) : bool :=
       | Some (inl OutOfFuel), _ => false
       | Some (inl e), OErr msg p =>
           str_eqb (err_message e) msg && option_eqb pos_eqb (err_pos e) (Some p)
+      | _, _ => false
+      end
+  | CCli files obs =>
+      match cli_predict files, obs with
+      | Some (CliDiags a), CliDiags b =>
+          list_eqb (fun x y => subset_strs x y && subset_strs y x) a b
+      | Some CliCrash, CliCrash => true
       | _, _ => false
       end
   end.
@@ -193,6 +244,13 @@ Definition ext_holds (doc : list item) (out : xoutcome) : bool :=
                 end) imps) paths
   end.
 
+Fixpoint forall2b {A B} (f : A -> B -> bool) (a : list A) (b : list B) : bool :=
+  match a, b with
+  | [], [] => true
+  | x :: a', y :: b' => f x y && forall2b f a' b'
+  | _, _ => false
+  end.
+Definition is_nil_strs (l : list str) : bool := match l with [] => true | _ => false end.
 Definition holds (c : case) : bool :=
   match c with
   | CExt doc out => ext_holds doc out
@@ -207,5 +265,26 @@ Definition holds (c : case) : bool :=
           && subset_defs ds exp && subset_defs exp ds && nodup_defs ds
       | OErr msg p => existsb (fun e => str_eqb (fst e) msg && pos_eqb (snd e) p) errs
       | OPanic _ => false
+      end
+  | CCli files obs =>
+      let st := map (fun x : str * list item * list str => (components (fst (fst x)), snd (fst x))) files in
+      match obs with
+      | CliCrash => false
+      | CliDiags per_file =>
+          let due := flat_map (fun x : str * list item * list str =>
+                                 map fst (expected_errors st (components (fst (fst x))) (snd (fst x)))) files in
+          match due with
+          | [] =>
+              (* no error is due anywhere: each file reports exactly the spreads outside its closure *)
+              forall2b (fun (x : str * list item * list str) (msgs : list str) =>
+                          let avail := expected_defs st (components (fst (fst x))) (snd (fst x)) in
+                          let exp := map msg_undefined
+                                         (filter (fun n => negb (existsb (is_frag_named n) avail)) (snd x)) in
+                          subset_strs exp msgs && subset_strs msgs exp) files per_file
+          | _ =>
+              (* some error is due: at least one is reported, and everything reported is due *)
+              negb (forallb is_nil_strs per_file)
+              && forallb (fun msgs => subset_strs msgs due) per_file
+          end
       end
   end.
